@@ -31,7 +31,7 @@ func (upcEEncoder) encodeWithHints(contents string, hints map[gozxing.EncodeHint
 	switch length {
 	case 7:
 		// No check digit present, calculate it and add it
-		check, e := upceanReader_getStandardUPCEANChecksum(contents)
+		check, e := upceanReader_getStandardUPCEANChecksum(convertUPCEtoUPCA(contents))
 		if e != nil {
 			return nil, gozxing.NewWriterException("IllegalArgumentException: %s", e.Error())
 		}
